@@ -399,13 +399,15 @@ func fileCacheCrashes(rep *report.Report) {
 // every k, never stops the store; later writes hold the complete state.
 func cacheFailures(rep *report.Report) {
 	sec := rep.Add(&report.Section{Name: "cache-read-write-failures", Engine: "enum", Exhaustive: true, Extra: map[string]int64{},
-		Rule: "history NewStore(declared a; cache empty) → LookupSecret(u) → server change + poll → server change + poll, with the cache's Read failing, or its Write failing at call k for every k; every operation must still succeed and serve the service's values, and the first successful write afterwards must hold the complete active set; non-trivial = runs in which a failure was injected"})
-	for k := 0; k <= 5; k++ {
+		Rule: "history NewStore(declared a; cache empty) → LookupSecret(u) → three times (server change + poll), values of varying length, with a cache that keeps the slice it is handed (as setec.MemCache does) and whose Read fails, or its Write failing at call k for every k; every operation must still succeed and serve the service's values, the cache's contents must at every moment be the document of its last successful write, and the first successful write afterwards must hold the complete active set; non-trivial = runs in which a failure was injected"})
+	for k := 0; k <= 6; k++ {
 		for _, failRead := range []bool{false, true} {
 			if failRead && k != 0 {
 				continue
 			}
 			svc := NewSvc()
+			// successive versions get shorter and longer values, so successive documents differ in length
+			svc.Pad = func(ver uint32) int { return []int{0, 40, 3, 25, 0, 17}[ver%6] }
 			svc.Put("a")
 			svc.Put("u")
 			c := &HCache{FailW: k, FailR: failRead}
@@ -417,15 +419,28 @@ func cacheFailures(rep *report.Report) {
 			bad := func(kind, msg string) {
 				rep.Violate(sec.Name, "cache-failure/"+kind+": "+desc, desc+": "+msg, nil)
 			}
+			// after every step: what the cache holds (it keeps the slice it was given, as setec.MemCache
+			// does) is the document of its last successful write - a failed or later write attempt must
+			// not have disturbed it
+			intact := func(when string) {
+				if len(c.Writes) == 0 {
+					return
+				}
+				if last := c.Writes[len(c.Writes)-1]; !bytes.Equal(c.Data, last) {
+					bad("document-disturbed", fmt.Sprintf("%s: the cache holds %q, but its last successful write was %q", when, report.Clip(string(c.Data), 200), report.Clip(string(last), 200)))
+				}
+			}
 			st, err := setec.NewStore(context.Background(), setec.StoreConfig{Client: svc, Secrets: []string{"a"}, AllowLookup: true, Cache: c, PollInterval: -1, Logf: func(string, ...any) {}})
 			if err != nil {
 				bad("newstore", err.Error())
 				continue
 			}
+			intact("after NewStore")
 			if _, err := st.LookupSecret(context.Background(), "u"); err != nil {
 				bad("lookup", err.Error())
 			}
-			for i := 0; i < 2; i++ {
+			intact("after LookupSecret")
+			for i := 0; i < 3; i++ {
 				svc.Put("a")
 				// a failing cache write may be reported by Refresh, but the values must be installed
 				st.Refresh(context.Background())
@@ -433,6 +448,7 @@ func cacheFailures(rep *report.Report) {
 				if got := string(st.Secret("a").Get()); got != want {
 					bad("value", fmt.Sprintf("after poll %d Secret(a)=%q, service has %q", i, got, want))
 				}
+				intact(fmt.Sprintf("after poll %d", i))
 			}
 			d := st.VerifDump()
 			doc, perr := parseCache(c.Data)
@@ -443,7 +459,7 @@ func cacheFailures(rep *report.Report) {
 					ce := doc[n]
 					if ce == nil || ce.Secret == nil || ce.Secret.Version != e.Version {
 						// only a violation if a write succeeded after the last install
-						if k != 4 && k != 5 {
+						if k != 5 && k != 6 {
 							bad("incomplete", fmt.Sprintf("the last successful cache write lacks the current state of %q", n))
 						}
 					}
